@@ -186,195 +186,203 @@ func runC03(r *mc.Run) {
 		bound = 3
 	}
 	other := func(di int) []byte { return docs[1-di].raw }
-	r.Explore("response-menu", bound, func(c *mc.Ctx) {
-		di := c.Free("doc", 2)
-		signer := c.Choose("signer", len(signers))
-		chain := c.Choose("chain", len(chains))
-		sigOver := c.Choose("sigover", 5)
-		reenc := c.Choose("reencode", 12)
-		idv := c.Choose("idversion", 8)
-		lev := c.Choose("levels", 3)
-		memb := c.Choose("member", 5)
-		sigf := c.Choose("sigfield", 12)
-		hdr := c.Choose("header", 14)
-		id := "menu/" + c.ID()
-		if !r.Want(id) {
-			return
+	for _, lvl := range []int{0, 2} {
+		world.SetLogLevel(lvl)
+		exName, exBound := "response-menu", bound
+		if lvl != 0 {
+			exName, exBound = "response-menu/log-level=2", 1
 		}
-		d := docs[di]
-		// content edits that Intel "really" signs
-		var obj map[string]json.RawMessage
-		json.Unmarshal(d.raw, &obj)
-		setv := func(k, v string) { obj[k] = json.RawMessage(v) }
-		switch idv {
-		case 1:
-			setv("id", `"SGX"`)
-		case 2:
-			setv("id", `"QE"`)
-		case 3:
-			setv("id", `"tdx"`)
-		case 4:
-			setv("version", `2`)
-		case 5:
-			setv("version", `4`)
-		case 6:
-			setv("version", `3.0`)
-		case 7:
-			setv("version", `"3"`)
-		}
-		switch lev {
-		case 1:
-			setv("tcbLevels", `[]`)
-		case 2:
-			delete(obj, "tcbLevels")
-		}
-		raw := d.raw
-		if idv != 0 || lev != 0 {
-			raw = orderedJSON(d.raw, obj)
-		}
-		// what the signature covers
-		signed := raw
-		switch sigOver {
-		case 1:
-			signed = []byte(fmt.Sprintf(`{"%s":%s}`, d.member, raw))
-		case 2:
-			signed = bytes.ReplaceAll(raw, []byte(`,"`), []byte(`, "`))
-		case 3:
-			signed = other(di)
-		case 4:
-			signed = append(append([]byte{}, raw...), ' ')
-		}
-		sigHex := hex.EncodeToString(signers[signer].key.SignRaw(signed))
-		// re-encoding of the transmitted member without re-signing
-		sent := raw
-		around := false
-		switch reenc {
-		case 1:
-			sent = bytes.ReplaceAll(raw, []byte(`,"`), []byte(`, "`)) // white space inside the member
-		case 2:
-			sent = reorderJSON(raw) // key order inside the member
-		case 3:
-			around = true // white space around the member value: not part of the signed bytes
-		case 4:
-			sent = bytes.Replace(raw, []byte(`"id":`), []byte(`"id" :`), 1)
-		case 5: // every kind of JSON white space, between tokens, at several places (a normalisation before the
-			// signature check accepts exactly the kinds it strips)
-			sent = bytes.ReplaceAll(raw, []byte(`,"`), []byte(",\n\""))
-		case 6:
-			sent = bytes.ReplaceAll(raw, []byte(`,"`), []byte(",\r\n\""))
-		case 7:
-			sent = bytes.ReplaceAll(raw, []byte(`,"`), []byte(",\r\""))
-		case 8:
-			sent = bytes.ReplaceAll(raw, []byte(`,"`), []byte(",\t\""))
-		case 9: // one line break before the closing brace only
-			sent = append(append([]byte(nil), raw[:len(raw)-1]...), '\n', '}')
-		case 10: // leading white space inside the member
-			sent = append([]byte("{\n"), raw[1:]...)
-		case 11: // pretty-printed
-			var b bytes.Buffer
-			if json.Indent(&b, raw, "", "  ") == nil {
-				sent = b.Bytes()
+		r.Explore(exName, exBound, func(c *mc.Ctx) {
+			di := c.Free("doc", 2)
+			signer := c.Choose("signer", len(signers))
+			chain := c.Choose("chain", len(chains))
+			sigOver := c.Choose("sigover", 5)
+			reenc := c.Choose("reencode", 12)
+			idv := c.Choose("idversion", 8)
+			lev := c.Choose("levels", 3)
+			memb := c.Choose("member", 5)
+			sigf := c.Choose("sigfield", 12)
+			hdr := c.Choose("header", 14)
+			id := "menu/" + c.ID() + world.LogTag()
+			if !r.Want(id) {
+				return
 			}
-		}
-		var body []byte
-		memberJSON := string(sent)
-		switch memb {
-		case 1:
-			memberJSON = ""
-		case 2:
-			memberJSON = "null"
-		case 3:
-			memberJSON = `"` + strings.ReplaceAll(string(sent), `"`, `\"`) + `"`
-		case 4:
-			memberJSON = "[" + string(sent) + "]"
-		}
-		sigJSON := `"` + sigHex + `"`
-		switch sigf {
-		case 1:
-			sigJSON = ""
-		case 2:
-			sigJSON = "null"
-		case 3:
-			sigJSON = "12345"
-		case 4:
-			sigJSON = `"` + sigHex[:126] + `"`
-		case 5:
-			sigJSON = `"` + sigHex + `00"`
-		case 6:
-			sigJSON = `"zz` + sigHex[2:] + `"`
-		case 7:
-			sigJSON = `"` + strings.ToUpper(sigHex) + `"` // same signature bytes
-		case 8, 9, 10, 11:
-			// a genuine signature one of whose components starts (8, 9) / ends (10, 11) with a zero octet, sent with that
-			// zero moved to the other end of the component: another number, not a signature of this document
-			off := 32 * ((sigf - 8) % 2)
-			lead := sigf < 10
-			sg := signers[signer].key.SignRawWhere(signed, func(r, s []byte) bool {
-				c := append(append([]byte{}, r...), s...)[off : off+32]
-				if lead {
-					return c[0] == 0 && c[31] != 0
+			d := docs[di]
+			// content edits that Intel "really" signs
+			var obj map[string]json.RawMessage
+			json.Unmarshal(d.raw, &obj)
+			setv := func(k, v string) { obj[k] = json.RawMessage(v) }
+			switch idv {
+			case 1:
+				setv("id", `"SGX"`)
+			case 2:
+				setv("id", `"QE"`)
+			case 3:
+				setv("id", `"tdx"`)
+			case 4:
+				setv("version", `2`)
+			case 5:
+				setv("version", `4`)
+			case 6:
+				setv("version", `3.0`)
+			case 7:
+				setv("version", `"3"`)
+			}
+			switch lev {
+			case 1:
+				setv("tcbLevels", `[]`)
+			case 2:
+				delete(obj, "tcbLevels")
+			}
+			raw := d.raw
+			if idv != 0 || lev != 0 {
+				raw = orderedJSON(d.raw, obj)
+			}
+			// what the signature covers
+			signed := raw
+			switch sigOver {
+			case 1:
+				signed = []byte(fmt.Sprintf(`{"%s":%s}`, d.member, raw))
+			case 2:
+				signed = bytes.ReplaceAll(raw, []byte(`,"`), []byte(`, "`))
+			case 3:
+				signed = other(di)
+			case 4:
+				signed = append(append([]byte{}, raw...), ' ')
+			}
+			sigHex := hex.EncodeToString(signers[signer].key.SignRaw(signed))
+			// re-encoding of the transmitted member without re-signing
+			sent := raw
+			around := false
+			switch reenc {
+			case 1:
+				sent = bytes.ReplaceAll(raw, []byte(`,"`), []byte(`, "`)) // white space inside the member
+			case 2:
+				sent = reorderJSON(raw) // key order inside the member
+			case 3:
+				around = true // white space around the member value: not part of the signed bytes
+			case 4:
+				sent = bytes.Replace(raw, []byte(`"id":`), []byte(`"id" :`), 1)
+			case 5: // every kind of JSON white space, between tokens, at several places (a normalisation before the
+				// signature check accepts exactly the kinds it strips)
+				sent = bytes.ReplaceAll(raw, []byte(`,"`), []byte(",\n\""))
+			case 6:
+				sent = bytes.ReplaceAll(raw, []byte(`,"`), []byte(",\r\n\""))
+			case 7:
+				sent = bytes.ReplaceAll(raw, []byte(`,"`), []byte(",\r\""))
+			case 8:
+				sent = bytes.ReplaceAll(raw, []byte(`,"`), []byte(",\t\""))
+			case 9: // one line break before the closing brace only
+				sent = append(append([]byte(nil), raw[:len(raw)-1]...), '\n', '}')
+			case 10: // leading white space inside the member
+				sent = append([]byte("{\n"), raw[1:]...)
+			case 11: // pretty-printed
+				var b bytes.Buffer
+				if json.Indent(&b, raw, "", "  ") == nil {
+					sent = b.Bytes()
 				}
-				return c[31] == 0 && c[0] != 0
-			})
-			comp := append([]byte(nil), sg[off:off+32]...)
-			if lead {
-				copy(sg[off:], append(comp[1:], 0))
-			} else {
-				copy(sg[off:], append([]byte{0}, comp[:31]...))
 			}
-			sigJSON = `"` + hex.EncodeToString(sg) + `"`
-		}
-		var parts []string
-		if memberJSON != "" {
-			if around {
-				parts = append(parts, fmt.Sprintf("\n  %q :  %s  ", d.member, memberJSON))
-			} else {
-				parts = append(parts, fmt.Sprintf("%q:%s", d.member, memberJSON))
+			var body []byte
+			memberJSON := string(sent)
+			switch memb {
+			case 1:
+				memberJSON = ""
+			case 2:
+				memberJSON = "null"
+			case 3:
+				memberJSON = `"` + strings.ReplaceAll(string(sent), `"`, `\"`) + `"`
+			case 4:
+				memberJSON = "[" + string(sent) + "]"
 			}
-		}
-		if sigJSON != "" {
-			parts = append(parts, `"signature":`+sigJSON)
-		}
-		body = []byte("{" + strings.Join(parts, ",") + "}")
-		hv := world.IssuerChainHeader(chains[chain].certs...)
-		header := map[string][]string{d.hdrKey: {hv}}
-		switch hdr {
-		case 1:
-			header = nil
-		case 2:
-			header = map[string][]string{d.hdrKey: {""}}
-		case 3:
-			header = map[string][]string{d.hdrKey: {hv, hv}}
-		case 4:
-			header = map[string][]string{strings.ToLower(d.hdrKey): {hv}}
-		case 5:
-			header = map[string][]string{d.hdrKey: {string(world.PEM(chains[chain].certs...))}} // not URL-escaped
-		case 6:
-			header = map[string][]string{d.hdrKey: {hv + "garbage"}}
-		case 7:
-			header = map[string][]string{d.hdrKey: {}}
-		case 8: // the header repeated, all but one value blank (exactly one issuer chain is expected)
-			header = map[string][]string{d.hdrKey: {"", hv}}
-		case 9:
-			header = map[string][]string{d.hdrKey: {hv, ""}}
-		case 10:
-			header = map[string][]string{d.hdrKey: {" ", hv}}
-		case 11:
-			header = map[string][]string{d.hdrKey: {"", hv, ""}}
-		case 12: // two different chains
-			header = map[string][]string{d.hdrKey: {hv, world.IssuerChainHeader(F.Tcb, F.Root)}}
-		case 13:
-			header = map[string][]string{d.hdrKey: {world.IssuerChainHeader(F.Tcb, F.Root), hv}}
-		}
-		g := w.Getter.Clone()
-		g.Responses[d.url] = world.Response{Header: header, Body: body}
-		err := verifyWith(w, g, world.L1)
-		out := c03Judge(r, id, "menu", w, g, err, pool)
-		if c.Deviations() == 0 && err != nil {
-			r.Violate("menu:honest-rejected", id, "the honest collateral world is rejected: "+errStr(err), nil)
-		}
-		r.Eval(id, c.Deviations() > 0, "menu:"+out)
-	})
+			sigJSON := `"` + sigHex + `"`
+			switch sigf {
+			case 1:
+				sigJSON = ""
+			case 2:
+				sigJSON = "null"
+			case 3:
+				sigJSON = "12345"
+			case 4:
+				sigJSON = `"` + sigHex[:126] + `"`
+			case 5:
+				sigJSON = `"` + sigHex + `00"`
+			case 6:
+				sigJSON = `"zz` + sigHex[2:] + `"`
+			case 7:
+				sigJSON = `"` + strings.ToUpper(sigHex) + `"` // same signature bytes
+			case 8, 9, 10, 11:
+				// a genuine signature one of whose components starts (8, 9) / ends (10, 11) with a zero octet, sent with that
+				// zero moved to the other end of the component: another number, not a signature of this document
+				off := 32 * ((sigf - 8) % 2)
+				lead := sigf < 10
+				sg := signers[signer].key.SignRawWhere(signed, func(r, s []byte) bool {
+					c := append(append([]byte{}, r...), s...)[off : off+32]
+					if lead {
+						return c[0] == 0 && c[31] != 0
+					}
+					return c[31] == 0 && c[0] != 0
+				})
+				comp := append([]byte(nil), sg[off:off+32]...)
+				if lead {
+					copy(sg[off:], append(comp[1:], 0))
+				} else {
+					copy(sg[off:], append([]byte{0}, comp[:31]...))
+				}
+				sigJSON = `"` + hex.EncodeToString(sg) + `"`
+			}
+			var parts []string
+			if memberJSON != "" {
+				if around {
+					parts = append(parts, fmt.Sprintf("\n  %q :  %s  ", d.member, memberJSON))
+				} else {
+					parts = append(parts, fmt.Sprintf("%q:%s", d.member, memberJSON))
+				}
+			}
+			if sigJSON != "" {
+				parts = append(parts, `"signature":`+sigJSON)
+			}
+			body = []byte("{" + strings.Join(parts, ",") + "}")
+			hv := world.IssuerChainHeader(chains[chain].certs...)
+			header := map[string][]string{d.hdrKey: {hv}}
+			switch hdr {
+			case 1:
+				header = nil
+			case 2:
+				header = map[string][]string{d.hdrKey: {""}}
+			case 3:
+				header = map[string][]string{d.hdrKey: {hv, hv}}
+			case 4:
+				header = map[string][]string{strings.ToLower(d.hdrKey): {hv}}
+			case 5:
+				header = map[string][]string{d.hdrKey: {string(world.PEM(chains[chain].certs...))}} // not URL-escaped
+			case 6:
+				header = map[string][]string{d.hdrKey: {hv + "garbage"}}
+			case 7:
+				header = map[string][]string{d.hdrKey: {}}
+			case 8: // the header repeated, all but one value blank (exactly one issuer chain is expected)
+				header = map[string][]string{d.hdrKey: {"", hv}}
+			case 9:
+				header = map[string][]string{d.hdrKey: {hv, ""}}
+			case 10:
+				header = map[string][]string{d.hdrKey: {" ", hv}}
+			case 11:
+				header = map[string][]string{d.hdrKey: {"", hv, ""}}
+			case 12: // two different chains
+				header = map[string][]string{d.hdrKey: {hv, world.IssuerChainHeader(F.Tcb, F.Root)}}
+			case 13:
+				header = map[string][]string{d.hdrKey: {world.IssuerChainHeader(F.Tcb, F.Root), hv}}
+			}
+			g := w.Getter.Clone()
+			g.Responses[d.url] = world.Response{Header: header, Body: body}
+			err := verifyWith(w, g, world.L1)
+			out := c03Judge(r, id, "menu", w, g, err, pool)
+			if c.Deviations() == 0 && err != nil {
+				r.Violate("menu:honest-rejected", id, "the honest collateral world is rejected: "+errStr(err), nil)
+			}
+			r.Eval(id, c.Deviations() > 0, "menu:"+out)
+		})
+	}
+	world.SetLogLevel(0)
 
 	// (c) unsigned shadow members
 	c03Shadows(r, pool)
